@@ -5,7 +5,7 @@ MC:      MC_Recover - a model of translate_function_extended (work list, windows
          entry, merge) is checked against the architecture's successor relation for ALL programs of an abstract
          ISA with 1..3-byte instructions in small scope: every reachable instruction exactly once, no dangling edge,
          entry = function address, native successors = architecture's, two-way conditionals keep two guarded edges.
-Binding: recorder c06 generates MIPS / MIPSel machine code from templates (straight runs longer than a 64-byte
+Binding: recorder c06 generates MIPS / MIPSel (and PPC: b / bl / bctr + manual edges) machine code from templates (straight runs longer than a 64-byte
          window, loops, forward / backward / overlapping conditional branches, branches at offsets 56 / 60 of a window,
          targets at the last word of a window, b / j / jal, jr $ra, jr with manual edges, function address in the
          middle of the code), lifts it with the real translate_function_extended and logs the projected function
@@ -114,7 +114,7 @@ def run(ctx):
     t0 = time.time()
     paths = ctx.record_many(jobs, parallel=8)
     t1 = time.time()
-    stats = validate(ctx, paths, 3 if q else 2, parallel=12 if q else 16)
+    stats = validate(ctx, paths, 2, parallel=12 if q else 16)
     core.log("[C06] recorded %d traces in %.1fs, validated in %.1fs" % (len(paths), t1 - t0, time.time() - t1))
     why = {k[4:]: v for k, v in stats.items() if k.startswith("why:")}
     verdicts = {k: v for k, v in stats.items() if not k.startswith("why:")}
@@ -190,11 +190,13 @@ def selftest(ctx):
         else:
             cur[1].append(i)
     rejected_lines = {rj["line"] for rj in base.rejects}
-    bad, kinds, j = set(), collections.Counter(), 0
+    bad, kinds, j, kind_of = set(), collections.Counter(), 0, {}
     for (b, runs) in sessions:
         e = evs[b]
         if "ok" not in e["lift"] or (b + 1) in rejected_lines or any((r + 1) in rejected_lines for r in runs) or len(runs) < 2:
             continue
+        if "manual" in e["tmpl"]:
+            continue        # may be `unspec` (manual edge at an unreachable indirect jump): not judged, so not corrupted
         blocks = [x for x in e["blocks"] if len(x["ins"]) >= 2]
         kind = j % 13
         j += 1
@@ -223,7 +225,10 @@ def selftest(ctx):
         elif kind == 4:
             e["edges"][0]["t"] = 99999                                 # edge to a missing block
         elif kind == 5:
-            others = [x["i"] for x in e["blocks"] if x["i"] != e["fentry"] and x["ins"]]
+            first = {x["i"]: x["ins"][0] for x in e["blocks"] if x["ins"]}
+            # a block of another native instruction (another block of the entry's own multi-block instruction
+            # starts at the same address: invisible at the native level)
+            others = [i for i, a in first.items() if i != e["fentry"] and a != first.get(e["fentry"])]
             if not others:
                 continue
             e["fentry"] = others[0]                                    # wrong entry block
@@ -249,6 +254,7 @@ def selftest(ctx):
                 r0["post"]["gpr"] = r0["post"]["gpr"][:30]             # malformed: REJECT, not a TLC crash
         bad.add(target + 1)
         kinds[kind] += 1
+        kind_of[target + 1] = kind
     q = ctx.work + "/selftest-mut.ndjson"
     with open(q, "w") as f:
         for e in evs:
@@ -258,5 +264,5 @@ def selftest(ctx):
     new = got - rejected_lines
     st = _stats([base])
     core.log("selftest: corrupted %d sessions (%s), rejected there %d, unexpected %s, missed %s; baseline structure ok=%d" % (
-        len(bad), dict(kinds), len(bad & new), sorted(new - bad)[:5], sorted(bad - new)[:5], st.get("structure:ok", 0)))
+        len(bad), dict(kinds), len(bad & new), sorted(new - bad)[:5], [(x, kind_of[x]) for x in sorted(bad - new)[:8]], st.get("structure:ok", 0)))
     return len(bad) >= 40 and new == bad and len(kinds) == 13
